@@ -3,7 +3,7 @@
 From Coq Require Import Reals Lra List.
 Import ListNotations.
 From Interval Require Import Tactic.
-From EsVerif.C08 Require Import Gen Model Spec Proofs Code SrcLib Src SrcProofs Cond Cond2 Cond3 Rounding Rounding2 Rounding3 ArrayLayer.
+From EsVerif.C08 Require Import Gen Model Spec Proofs Code SrcLib Src SrcProofs Cond Cond2 Cond3 Rounding Rounding2 Rounding3 Rounding4 ArrayLayer.
 Open Scope R_scope.
 
 Lemma triple_eq (a b c a' b' c' : R) : a = a' -> b = b' -> c = c' -> (a, b, c) = (a', b', c').
@@ -141,3 +141,24 @@ Definition gcirc_binary64_stmt : Prop :=
 
 Lemma rounding_binary64_thm : chord_branch_binary64_stmt /\ cross_branch_binary64_stmt /\ gcirc_binary64_stmt.
 Proof. split; [exact chord_branch_binary64|]. split; [exact cross_branch_binary64 | exact gcirc_binary64_budget]. Qed.
+
+(* a quarter turn along the equator, every operation evaluated exactly: all hypotheses of the degrees-to-degrees
+   theorem hold *)
+Lemma sphdist_chord_degrees_instance :
+  Rabs (2 * asin (/ 2 * (sqrt 2 * (1 + 0))) * (180 / PI * (1 + 0)) * (1 + 0) - sphdist_code Deg Deg 0 0 90 0) <= 1 / 10 ^ 11.
+Proof.
+  assert (U : 0 < u64) by (unfold u64; interval).
+  assert (Z : forall x, x - x = 0) by (intro; ring).
+  assert (A0 : Rabs 0 <= u64) by (rewrite Rabs_R0; lra).
+  assert (T0 : fl_d2r 0 0 0 = 0) by (unfold fl_d2r; ring).
+  assert (T9 : fl_d2r 90 0 0 = PI / 2) by (unfold fl_d2r; field).
+  pose proof (sphdist_chord_degrees_binary64 0 0 90 0 0 0 0 0 0
+                (cos 0) (sin 0) (cos 0) (sin 0) (cos (PI / 2)) (sin (PI / 2)) (cos 0) (sin 0)
+                0 0 0 0 0 0 0 0 0 0 0 0 0 (asin (/ 2 * (sqrt 2 * (1 + 0)))) 0 0) as T.
+  cbv zeta in T. rewrite T0, T9 in T. rewrite !Z in T.
+  assert (DS : fl_dsq (fl_vec (cos 0) (sin 0) (cos 0) (sin 0) 0 0) (fl_vec (cos (PI / 2)) (sin (PI / 2)) (cos 0) (sin 0) 0 0)
+                      0 0 0 0 0 0 0 0 = 2).
+  { unfold fl_dsq, fl_vec. rewrite cos_0, sin_0, cos_PI2, sin_PI2. ring. }
+  rewrite DS in T. apply T; try exact A0; try (rewrite Rabs_R0; lra); try (unfold sphdist_thr; lra);
+    try (unfold Rabs; destruct (Rcase_abs _); lra).
+Qed.
